@@ -256,3 +256,9 @@ Theorem C20_text_grouping : forall s,
   /\ filter (fun c => negb (c =? 44)) (group3 s) = filter (fun c => negb (c =? 44)) s.
 Proof. exact text_grouping_all. Qed.
 Print Assumptions C20_text_grouping.
+
+(* parse_fmt decides membership in the grammar *)
+Theorem C20_text_grammar_decidable : forall s F,
+  parse_fmt s = Some F <-> (fmt_ok F = true /\ s = fmt_string F).
+Proof. exact text_grammar_decidable_all. Qed.
+Print Assumptions C20_text_grammar_decidable.
